@@ -26,6 +26,8 @@ fn dispatch(sx: &Sx) -> String {
     match sx.head() {
         "osstr" => modes::lex::osstr(args),
         "cursor" => modes::lex::cursor(args),
+        "lex" => modes::lex::lex(args),
+        "short" => modes::lex::short(args),
         m => format!("unknown-mode {m}"),
     }
 }
